@@ -99,6 +99,9 @@ StepCmd(mm, e) ==
                 [cls |-> DeviationClass(mm.kv, c, o, FALSE), cmd |-> e.args, reply |-> e.reply.raw, expected |-> SetToSeq(x.replies),
                  key_state |-> mm.kv[c.k], waited_s |-> e.ticks])
     ELSE IF e.reply.extra # 0 THEN Report(mm, "redis-extra-reply-bytes", e, [cls |-> "other", cmd |-> e.args, extra |-> e.reply.extra])
+    \* a time-to-live in the millisecond unit runs on the server's wall clock: when the key is already gone at the observation
+    \* the driver was simply slower than the term (a 1 ms term on a busy machine) - nothing can be said, the history ends here
+    ELSE IF judgeTtl /\ after.ttl.on /\ after.ttl.ms /\ ~e.ttl.held THEN [mm EXCEPT !.dead = TRUE, !.nopen = @ + 1]
     ELSE IF judgeTtl /\ ~ttlOk
     THEN Report(mm, "redis-ttl-differs-from-kv-store", e,
                 [cls |-> ttlCls, cmd |-> e.args, asked_deadline_ms_from_now |-> IF after.ttl.on THEN <<after.ttl.lo - mm.now, after.ttl.hi - mm.now>> ELSE <<>>,
